@@ -1007,6 +1007,42 @@ def rule_json_keys(repo, col):
         pass
 
 
+def rule_written_constants(repo, col):
+    """What the writers put in format-url / format-version / dates is what
+    the validator accepts: both writers produce every creation date with
+    .isoformat() and the validator accepts the shapes isoformat() yields."""
+    from .rules_text import rule_ag_json_writer
+    from .rules_hdf5 import WriterModel
+    rule_ag_json_writer(repo, col)
+    rule = 'AG-VALID'
+    ce = ConstEval(repo)
+    w = WriterModel(repo)
+    dates = w.attrs.get('creation-date', [])
+    ok = bool(dates) and all(isinstance(n.value, ast.Call) and isinstance(
+        n.value.func, ast.Attribute) and n.value.func.attr == 'isoformat'
+        for n in dates)
+    col.check(ok, rule, TABLE, 'Table.to_hdf5', 'const:creation-date',
+              dates[0] if dates else None,
+              'every branch writes creation-date with .isoformat()',
+              'a branch of to_hdf5 writes the creation date without '
+              '.isoformat() (e.g. str(datetime) uses a space separator, '
+              'which the validator rejects)')
+    url, _ = _class_const(repo, 'TableValidator', 'FormatURL', ce)
+    fu = w.attrs.get('format-url', [])
+    col.check(bool(fu) and ce.ev(fu[0].value, TABLE) == url, rule, TABLE,
+              'Table.to_hdf5', 'const:format-url', fu[0] if fu else None,
+              'format-url written equals TableValidator.FormatURL',
+              'format-url written differs from what the validator accepts')
+    vers, _ = _class_const(repo, 'TableValidator', 'HDF5FormatVersions', ce)
+    fv = ce.ev(ce.module_assign('biom/util.py', '__format_version__'),
+               'biom/util.py')
+    col.check(vers is not UNKNOWN and fv in vers, rule, TABLE,
+              'Table.to_hdf5', 'const:format-version', None,
+              'format version %r accepted' % (fv,),
+              'format version %r written is not in HDF5FormatVersions'
+              % (fv,))
+
+
 RULE_TEXT = {
     'OR-REPORT': rule_or_report.__doc__,
     'AG-VALID': rule_ag_valid_hdf5.__doc__,
